@@ -67,16 +67,16 @@ Eager ==
     \/ ~cfg.deaf /\ \E o \in orphans : OrphanDone(o) /\ NoRec /\ Keep
     \/ \E x \in firing, vd \in Verdicts :
          /\ Fire(x, vd)
-         /\ CASE x.kind = "w" -> \E w \in Workers : worker[w].st = "inline" /\ worker[w].id = x.id /\ InlineVals[worker[w].k] = x.v /\ WorkerInline(w, vd)
+         /\ CASE x.kind = "w" -> \E w \in Workers : worker[w].st = "inline" /\ worker[w].id = x.id /\ InlineOf(worker[w].tv)[worker[w].k] = x.v /\ WorkerInline(w, vd)
               [] x.kind = "j" -> \E j \in jobs : j.id = x.id /\ AsyncTimeout(j, x.v, vd)
-              [] x.kind = "c" -> \E c \in Calls : local[c].st = "inline" /\ local[c].id = x.id /\ local[c].k = x.v /\ LocalInline(c, vd)
+              [] x.kind = "c" -> \E c \in Calls : local[c].st = "inline" /\ local[c].id = x.id /\ AllOf(local[c].id)[local[c].k] = x.v /\ LocalInline(c, vd)
               [] x.kind = "o" -> OrphanDone([v |-> x.v, id |-> x.id])
 
 \* ---------------------------------------------------------------- stimuli
 Running ==   \* validators parked at their gate
-    {[kind |-> "w", v |-> InlineVals[worker[w].k], id |-> worker[w].id] : w \in {u \in Workers : worker[u].st = "inline"}}
+    {[kind |-> "w", v |-> InlineOf(worker[w].tv)[worker[w].k], id |-> worker[w].id] : w \in {u \in Workers : worker[u].st = "inline"}}
     \cup UNION {{[kind |-> "j", v |-> v, id |-> j.id] : v \in j.run} : j \in {k \in jobs : k.stage = "run"}}
-    \cup {[kind |-> "c", v |-> local[c].k, id |-> local[c].id] : c \in {d \in Calls : local[d].st = "inline"}}
+    \cup {[kind |-> "c", v |-> AllOf(local[c].id)[local[c].k], id |-> local[c].id] : c \in {d \in Calls : local[d].st = "inline"}}
     \cup {[kind |-> "o", v |-> o.v, id |-> o.id] : o \in orphans}
 
 Send(p, id) == LoopArrive(p, <<id>>) /\ Rec([a |-> "msg", p |-> p, m |-> id]) /\ Keep
@@ -90,13 +90,13 @@ SendBatch(p, b) == /\ Len(b) > 1 /\ LoopArrive(p, b) /\ Rec([a |-> "rpc", p |-> 
 Rel ==
     \/ \E w \in Workers, vd \in Verdicts :
          /\ worker[w].st = "inline"
-         /\ Rec([a |-> "rel", v |-> InlineVals[worker[w].k], m |-> worker[w].id, r |-> vd])
+         /\ Rec([a |-> "rel", v |-> InlineOf(worker[w].tv)[worker[w].k], m |-> worker[w].id, r |-> vd])
          /\ WorkerInline(w, vd) /\ Keep
     \/ \E j \in jobs, v \in 1..NVmax, vd \in Verdicts :
          /\ AsyncDone(j, v, vd) /\ Rec([a |-> "rel", v |-> v, m |-> j.id, r |-> vd]) /\ Keep
     \/ \E c \in Calls, vd \in Verdicts :
          /\ local[c].st = "inline"
-         /\ Rec([a |-> "rel", v |-> local[c].k, m |-> local[c].id, r |-> vd])
+         /\ Rec([a |-> "rel", v |-> AllOf(local[c].id)[local[c].k], m |-> local[c].id, r |-> vd])
          /\ LocalInline(c, vd) /\ Keep
     \/ \E o \in orphans :      \* an orphan that ignored the cancellation; its verdict is read by nobody
          /\ OrphanDone(o) /\ Rec([a |-> "rel", v |-> o.v, m |-> o.id, r |-> "A"]) /\ Keep
@@ -107,7 +107,7 @@ BName(n) == "b" \o ToString(n)
 
 Block(w) ==
     /\ nblk < MaxBlock /\ worker[w].st = "idle" /\ valQ = <<>> /\ cfg.signed   \* the blocker carries an invalid signature
-    /\ worker' = [worker EXCEPT ![w] = [st |-> "parked", id |-> BName(nblk + 1), src |-> "-", k |-> 0, res |-> "A"]]
+    /\ worker' = [worker EXCEPT ![w] = [st |-> "parked", id |-> BName(nblk + 1), src |-> "-", k |-> 0, res |-> "A", tv |-> 0]]
     /\ nblk' = nblk + 1 /\ Rec([a |-> "block", m |-> BName(nblk + 1)])
     /\ UNCHANGED <<cfg, seen, sent, valQ, loopQ, jobs, gUsed, vUsed, orphans, sendQ, local, outs, mons, firing, nadv, racy>>
 
@@ -158,10 +158,10 @@ Exp == [ finals    |-> finals,
 
 Emit == (Drained /\ Len(hist) >= MinEmit) =>
            PrintT(<<"SCN", ToJson([cfg |-> [nv |-> cfg.nv, inl |-> SortedSeq(cfg.inl), tmo |-> SortedSeq(cfg.tmo), gthr |-> cfg.gthr,
-                                           vthr |-> cfg.vthr, signed |-> cfg.signed, subs |-> Cardinality(cfg.subs),
+                                           vthr |-> cfg.vthr, tv1 |-> cfg.tv1, tv2 |-> cfg.tv2, signed |-> cfg.signed, subs |-> Cardinality(cfg.subs),
                                            relay |-> cfg.relay, deaf |-> cfg.deaf, workers |-> Cardinality(Workers), qcap |-> QCap],
                                    acts |-> hist, exp |-> Exp])>>)
 
 \* the model's own properties hold on everything it generates (a failure here is a machinery problem)
-GenOK == P_C02_DeliverOnce /\ P_C02_ValidateOnce /\ P_C02_LocalDup /\ P_C04_OnlyIfAllAccept /\ P_C04_Outcome /\ P_C04_Penalty /\ P_C04_Local
+GenOK == P_C02_DeliverOnce /\ P_C02_ValidateOnce /\ P_C02_LocalDup /\ P_C04_OnlyIfAllAccept /\ P_C04_Applicable /\ P_C04_Outcome /\ P_C04_Penalty /\ P_C04_Local
 =============================================================================
